@@ -142,3 +142,47 @@ package fs
 //@   ensures first: isptr(fi.Sys(), syscall.Stat_t) && !fi.IsDir() && asptr(fi.Sys(), syscall.Stat_t).Nlink > 1 && !old(haskey(inodes, asptr(fi.Sys(), syscall.Stat_t).Ino)) ==> result0 == "" && haskey(inodes, asptr(fi.Sys(), syscall.Stat_t).Ino) && inodes[asptr(fi.Sys(), syscall.Stat_t).Ino] == name
 //@   ensures later: isptr(fi.Sys(), syscall.Stat_t) && !fi.IsDir() && asptr(fi.Sys(), syscall.Stat_t).Nlink > 1 && old(haskey(inodes, asptr(fi.Sys(), syscall.Stat_t).Ino)) ==> result0 == old(inodes[asptr(fi.Sys(), syscall.Stat_t).Ino]) && inodes[asptr(fi.Sys(), syscall.Stat_t).Ino] == old(inodes[asptr(fi.Sys(), syscall.Stat_t).Ino])
 //@   ensures frame: forall k uint64 :: isptr(fi.Sys(), syscall.Stat_t) && k != asptr(fi.Sys(), syscall.Stat_t).Ino ==> haskey(inodes, k) == old(haskey(inodes, k)) && inodes[k] == old(inodes[k])
+
+// ---------------------------------------------------------------------------
+// copy.go: matching, notification, deferred parents, recursion
+// ---------------------------------------------------------------------------
+
+//@ func copier.include
+//@   property C16
+//@   requires c != nil
+//@   ensures nomatcher: c.includePatternMatcher == nil ==> result0 && result2 == nil
+//@   ensures err: result2 != nil ==> !result0
+
+//@ func copier.exclude
+//@   property C16
+//@   requires c != nil
+//@   ensures nomatcher: c.excludePatternMatcher == nil ==> !result0 && result2 == nil
+//@   ensures err: result2 != nil ==> !result0
+
+// one notification with the destination path relative to the root
+//@ func copier.notifyChange
+//@   property C13
+//@   requires c != nil
+//@   effects Notify
+//@   ensures none: c.changefn == nil ==> result == nil && cnt(Notify) == old(cnt(Notify))
+//@   ensures once: c.changefn != nil ==> cnt(Notify) == old(cnt(Notify)) + 1 && arg(Notify, 0) == fsutil.ChangeKindAdd && arg(Notify, 1) == path.Clean(strings.TrimPrefix(target, c.root)) && arg(Notify, 2) == fi
+
+// Deferred creation of the not-yet-copied ancestors: each gets the metadata
+// and xattrs of its own source directory (mode, owner, xattrs), exactly when
+// this call created it; afterwards every stack entry is marked copied and the
+// stack itself is unchanged.
+//@ func copier.createParentDirs
+//@   property C16 C14
+//@   requires c != nil
+//@   modifies c.parentDirs[*]
+//@   effects Stat StatRes Lstat LstatRes Mkdir MkdirOK Chmod ChownerCall Lchown Utimes LListxattr LGetxattr LSetxattr XattrErr
+//@   loop 0 invariant done: forall k int :: 0 <= k && k <= rangeindex && k < len(c.parentDirs) ==> c.parentDirs[k].copied
+//@   loop 0 invariant same: forall k int :: 0 <= k && k < len(c.parentDirs) ==> c.parentDirs[k].srcPath == old(c.parentDirs[k].srcPath) && c.parentDirs[k].dstPath == old(c.parentDirs[k].dstPath) && (old(c.parentDirs[k].copied) ==> c.parentDirs[k].copied)
+//@   loop 0 invariant idle: (forall k int :: 0 <= k && k < len(c.parentDirs) ==> old(c.parentDirs[k].copied)) ==> clk() == old(clk())
+//@   ensures all_copied: result == nil ==> forall k int :: 0 <= k && k < len(c.parentDirs) ==> c.parentDirs[k].copied
+//@   ensures same: forall k int :: 0 <= k && k < len(c.parentDirs) ==> c.parentDirs[k].srcPath == old(c.parentDirs[k].srcPath) && c.parentDirs[k].dstPath == old(c.parentDirs[k].dstPath)
+//@   ensures nothing_pending: (forall k int :: 0 <= k && k < len(c.parentDirs) ==> old(c.parentDirs[k].copied)) ==> clk() == old(clk())
+//@   at call os.Stat: source_dir: arg0 == parentDir.srcPath && !parentDir.copied
+//@   at call copyDirectoryOnly: dest_dir: arg0 == parentDir.dstPath
+//@   at call copier.copyFileInfo: own_source_metadata: arg3 == parentDir.dstPath && created
+//@   at call copyXAttrs: own_source_xattrs: arg0 == parentDir.dstPath && arg1 == parentDir.srcPath && created
